@@ -60,6 +60,26 @@ CHECKS = {
             "The C08 read grid is driven in C03/C04 states (incl. after truncation, after rollback across truncating commits, and through read-only clones / VecReaders) while the observer receives an Access event for every pointer read from the mapping (Reader::unchecked_read, raw strategy reads per element, bulk memcpy reads, ZeroCopy reference reads) and a FileRead event for every file-IO buffer refill; each range must lie within [start, start+len) of the vector's data, page-index or holes region according to the region metadata at that moment. Repeated with the file-IO back-end forced.",
             "A read site without a tap is invisible (the C08 value comparison still sees its result); single-threaded.",
             "DESIGN.md §4 C20"),
+    "C06": ("E-EAGER", "exploration",
+            "differential monitor: every incremental compute_* call vs the same method run from scratch, replayed under several internal batch limits",
+            "41 integer-exact compute_* methods (transforms incl. indirect_sequential/first_per_index, arithmetic, cumulative, fixed and variable windows, lookback, *_of_others, index-group sums/counts, all-time extremes) are driven through histories of source appends, truncation + regrowth with different values, redundant calls and flush + re-import of the result, with sources and results in Bytes/ZeroCopy/LZ4/Zstd combinations. After every call the stored result must equal, element by element, the same method evaluated on a fresh vector over the sources' current contents, and have the length of the shortest governing source. The starting index is always <= min(first changed source row, first index where old and new from-scratch results differ). Every history is re-run with the internal batch limit lowered to 1 / 64 (thorough: 1/3/64/4096) elements through a cfg(verif) knob and must reproduce the per-call result hashes of the default-limit run; batch boundaries are counted through a hook point and a multi-batch execution is required for every method.",
+            "The from-scratch run of the method itself is the reference (as the statement says); float families are outside 'exact arithmetic'; documented panics (unsigned underflow, zero divisor) are avoided by construction.",
+            "DESIGN.md §4 C06"),
+    "C14": ("E-TABLE", "exploration",
+            "exhaustive evaluation of the import decision table on fresh databases",
+            "Every cell of (stored format x requested format over Bytes/ZeroCopy/Pco/LZ4/Zstd) x (created with import|forced_import) x (re-opened with import|forced_import) x (stored version 1|2) x (requested version 1|2) x (small vector | multi-page vector with deleted slots / 2-page index) is executed (1600 cells per element type), plus all 125 forced-import chains f1->f2->f3 and the damaged-header / odd-length cases per format and entry point. Expected per cell: match -> stored contents, deleted slots and stamp come back and the regions are byte-identical; mismatch + import -> DifferentVersion/DifferentFormat and all regions byte-identical; mismatch + forced_import -> empty vector without deleted slots; non-mismatch errors never discard; afterwards the stored vector must accept push + flush + re-import.",
+            "Element type is the same on both sides; lock and I/O errors cannot be produced at import time on an open database (C18 covers the locked directory).",
+            "DESIGN.md §4 C14"),
+    "C16": ("E-FAULT", "fault_enumeration",
+            "commit-chain model for retention + single-file fault injection on change records with full before/after snapshots",
+            "Commit/rollback histories with retention k in {0,1,2,3,5} run under the C04 model, whose record set predicts for every rollback whether it must succeed (exactly min(k, commits) consecutive ones do) and which records may exist (directory listing compared after every commit). In committed states with a retained record every single-file fault is injected and rollback() called: record deleted; truncated at every byte offset (<= 600 bytes: all; larger: first 200, last 64, around every length field, random); every length field overwritten with 2^32, 2^40, 2^63, u64::MAX (and true+1 for the three redundant truncation fields). The call must fail and leave regions, change directory and the vector's view byte-identical - or, if accepted, produce exactly the previous committed state. rollback_before across a truncated older record must fail resting on the committed state it had reached.",
+            "One damaged file at a time; a count field changed into another in-range value yields a different well-formed record that cannot be recognised (no checksums) and is outside 'out-of-range'.",
+            "DESIGN.md §4 C16"),
+    "C19": ("E-EAGER", "exploration",
+            "index-logging closures + version-stamped results + differential against from-scratch under version changes",
+            "The C06 engine with version changes: inputs re-created under higher versions (always with new contents), the vector's own version raised by a forced re-import, arbitrary starting indices, interleaved with appends, truncate+regrow, flush + re-import. After a version change the result must equal the from-scratch result over the new inputs and - for compute_to/range/transform/transform2/3/4, whose closures log every index and stamp the version into each element - the closure must have run for exactly 0..len. Under an unchanged version no index below min(starting index, stored length) may reach the closure and no stored element below it may change; header().computed_version() must survive flush + re-import.",
+            "'Not re-evaluated' is decided for the closure-taking families only; for the others staleness is recognised by value.",
+            "DESIGN.md §4 C19"),
 }
 
 NOT_YET = {}
@@ -98,6 +118,9 @@ def main():
         },
         "engines": [
             {"name": "E-MODEL", "path": "harness/src/rawmodel.rs, harness/src/c_raw.rs, harness/src/vecmodel.rs, harness/src/c_vec.rs, harness/src/probes.rs", "serves_properties": ["C01", "C02", "C03", "C04", "C07", "C08", "C13", "C20"], "kind_free_text": "seeded history generator + reference model + step-wise comparator + ddmin shrinker (rawdb regions and vecdb vectors)"},
+            {"name": "E-EAGER", "path": "harness/src/c_eager.rs", "serves_properties": ["C06", "C19"], "kind_free_text": "differential monitor for EagerVec computations: incremental vs from-scratch, batch-limit replay, version-change oracle"},
+            {"name": "E-TABLE", "path": "harness/src/c_import.rs", "serves_properties": ["C14"], "kind_free_text": "exhaustive decision-table executor for import / forced_import"},
+            {"name": "E-FAULT", "path": "harness/src/c_fault.rs", "serves_properties": ["C16"], "kind_free_text": "single-file fault injector for change records (delete / truncate at every offset / length-field overwrite)"},
             {"name": "E-CRASH", "path": "harness/src/crash.rs, harness/src/c_crash.rs", "serves_properties": ["C05", "C12"], "kind_free_text": "durable-image shadow of both files from hook events; crash images recovered by the real open"},
             {"name": "E-LAYOUT", "path": "harness/src/rawmodel.rs (check_layout)", "serves_properties": ["C02", "C10", "C13"], "kind_free_text": "extent/partition invariant walker at quiescent points"},
         ],
